@@ -472,7 +472,7 @@ func ruleALStr(c *Ctx) {
 					if z, isK := constInt(v.Low); v.Low != nil && isK && z == 0 {
 						lowZero = true
 					}
-					c.Check(fn.Name() == "Close" && isSDataLoad(v.X) && lowZero && isHi && hi == 0, key, P.pos(st.Pos()), "Close: sData = sData[:0]", "the string store is truncated outside Close: strings still in use would be overwritten")
+					c.Check(closeOnly(P, fn, 0) && isSDataLoad(v.X) && lowZero && isHi && hi == 0, key, P.pos(st.Pos()), "Close (or a helper only Close calls): sData = sData[:0]", "the string store is truncated outside Close: strings still in use would be overwritten")
 				default:
 					c.Bad(key, P.pos(st.Pos()), "the string store is overwritten")
 				}
@@ -675,6 +675,28 @@ func ruleALBump(c *Ctx) {
 		fa, ok := u.X.(*ssa.FieldAddr)
 		return ok && fieldName(fa.X.Type(), fa.Field) == name
 	}
+	if af := allocByFold(P); af.ok {
+		pos := P.pos(al.Pos())
+		c.Rule("AL-BUMP", "", 0)
+		for _, cl := range []string{"slot-address", "pre-increment-index", "growth"} {
+			c.Check(af.problems[cl] == "" && af.problems["shape"] == "", key+"/"+cl, pos, af.detail, af.problems[cl]+af.problems["shape"])
+		}
+		alLenStores(c, R)
+		c.Rule("AL-CLR", "", 0)
+		switch {
+		case af.problems["clear"] != "":
+			c.Bad(key+"/clear", pos, af.problems["clear"]+": a recycled bank leaks values from an earlier record")
+		default:
+			if ok, why := typedClear(P, af.clearFn, 0); ok {
+				c.OK(key+"/clear", pos, "in every outcome the runtime's typedmemclr is applied to the very pointer returned, with the run-time type of its arena")
+			} else {
+				c.Unk(key+"/clear", pos, "the slot handed out is cleared by something that is not known to clear all of it: "+why)
+			}
+		}
+		alStale(c)
+		alClose(c, R, rbT)
+		return
+	}
 	rs := returnsOf(al)
 	if len(rs) != 1 {
 		c.Unk(key+"/shape", P.pos(al.Pos()), "Alloc does not have a single return")
@@ -720,44 +742,7 @@ func ruleALBump(c *Ctx) {
 	}
 	c.Rule("AL-BUMP", "", 0)
 	c.Check(okPtr, key+"/slot-address", P.pos(ret.Pos()), "the pointer returned is array + index*size", "the pointer returned is not array + index*size of the type's arena")
-	// the length of an arena only ever grows by one (an allocation) or goes back to zero (Close, a fresh entry):
-	// a slot handed out stays handed out until the bank is closed
-	if R.entry != nil {
-		nLen := 0
-		for _, fn := range P.ModuleFuncs() {
-			for _, b := range fn.Blocks {
-				for _, in := range b.Instrs {
-					st, ok := in.(*ssa.Store)
-					if !ok {
-						continue
-					}
-					fa, ok := st.Addr.(*ssa.FieldAddr)
-					if !ok || fieldName(fa.X.Type(), fa.Field) != R.len {
-						continue
-					}
-					pt, isPtr := fa.X.Type().Underlying().(*types.Pointer)
-					if !isPtr || !types.Identical(types.Unalias(pt.Elem()), types.Type(R.entry)) {
-						continue
-					}
-					nLen++
-					okStore := false
-					if k, isK := constInt(st.Val); isK && k == 0 {
-						okStore = true
-					}
-					if add, isAdd := st.Val.(*ssa.BinOp); isAdd && add.Op == token.ADD {
-						if one, isOne := constInt(add.Y); isOne && one == 1 {
-							if ld, isLd := add.X.(*ssa.UnOp); isLd && ld.Op == token.MUL {
-								if fa2, isFA := ld.X.(*ssa.FieldAddr); isFA && fa2.Field == fa.Field && fa2.X == fa.X {
-									okStore = true
-								}
-							}
-						}
-					}
-					c.Check(okStore, fmt.Sprintf("%s/len-store#%d", fnKey(fn), nLen), P.pos(st.Pos()), "the arena length is incremented by one or reset to zero", "an arena's length is given a value other than itself plus one, or zero: a slot that is still in use can be handed out again")
-				}
-			}
-		}
-	}
+	alLenStores(c, R)
 	// idx is a load of len that precedes the store len = len+1
 	var lenStore *ssa.Store
 	for _, b := range al.Blocks {
@@ -862,6 +847,57 @@ func ruleALBump(c *Ctx) {
 	} else {
 		c.Check(okClr, key+"/clear", P.pos(ret.Pos()), "the runtime's typedmemclr(ptyp, ptr) on the returned pointer dominates the return", "the slot handed out is not cleared with its own type first: a recycled bank leaks values from an earlier record")
 	}
+	alStale(c)
+	alClose(c, R, rbT)
+}
+
+// alLenStores: module-wide, an arena's length is only ever stored as itself plus one, or zero.
+func alLenStores(c *Ctx, R *bankRoles) {
+	P := c.P
+	c.Rule("AL-BUMP", "", 0)
+	// the length of an arena only ever grows by one (an allocation) or goes back to zero (Close, a fresh entry):
+	// a slot handed out stays handed out until the bank is closed
+	if R.entry != nil {
+		nLen := 0
+		for _, fn := range P.ModuleFuncs() {
+			for _, b := range fn.Blocks {
+				for _, in := range b.Instrs {
+					st, ok := in.(*ssa.Store)
+					if !ok {
+						continue
+					}
+					fa, ok := st.Addr.(*ssa.FieldAddr)
+					if !ok || fieldName(fa.X.Type(), fa.Field) != R.len {
+						continue
+					}
+					pt, isPtr := fa.X.Type().Underlying().(*types.Pointer)
+					if !isPtr || !types.Identical(types.Unalias(pt.Elem()), types.Type(R.entry)) {
+						continue
+					}
+					nLen++
+					okStore := false
+					if k, isK := constInt(st.Val); isK && k == 0 {
+						okStore = true
+					}
+					if add, isAdd := st.Val.(*ssa.BinOp); isAdd && add.Op == token.ADD {
+						if one, isOne := constInt(add.Y); isOne && one == 1 {
+							if ld, isLd := add.X.(*ssa.UnOp); isLd && ld.Op == token.MUL {
+								if fa2, isFA := ld.X.(*ssa.FieldAddr); isFA && fa2.Field == fa.Field && fa2.X == fa.X {
+									okStore = true
+								}
+							}
+						}
+					}
+					c.Check(okStore, fmt.Sprintf("%s/len-store#%d", fnKey(fn), nLen), P.pos(st.Pos()), "the arena length is incremented by one or reset to zero", "an arena's length is given a value other than itself plus one, or zero: a slot that is still in use can be handed out again")
+				}
+			}
+		}
+	}
+}
+
+// alStale: AL-STALE.
+func alStale(c *Ctx) {
+	P := c.P
 	// no pointer into a growable arena table outlives the call: an element address of a slice field that is
 	// appended to somewhere must not be stored in a field or a package variable (append may move the table)
 	c.Rule("AL-STALE", "no address of an element of a slice that is grown by append is kept in a field or package variable: after the slice is reallocated such a pointer refers to a dead copy whose counters diverge from the live entry", 1)
@@ -946,12 +982,25 @@ func ruleALBump(c *Ctx) {
 			}
 		}
 		if bad == 0 {
-			c.Check(nGrown > 0, "avro.ResourceBank/element-addresses", P.pos(al.Pos()), fmt.Sprintf("no element address of a grown slice is stored in a field or package variable (%d grown slice fields in the bank)", nGrown), "the bank's arena table is not a slice grown by append any more (rule needs re-reading)")
+			c.Check(nGrown > 0, "avro.ResourceBank/element-addresses", "-", fmt.Sprintf("no element address of a grown slice is stored in a field or package variable (%d grown slice fields in the bank)", nGrown), "the bank's arena table is not a slice grown by append any more (rule needs re-reading)")
 		}
 	}
 	// Close
+}
+
+// alClose: AL-CLOSE.
+func alClose(c *Ctx, R *bankRoles, rbT types.Type) {
+	P := c.P
 	c.Rule("AL-CLOSE", "", 0)
 	cl := P.Method(rbT, "Close")
+	if cl != nil {
+		if probs, ok := closeByFold(P); ok {
+			msg := "Close folded on a bank with two arenas (2 of 4 and 4 of 4 in use) and five bytes of string data: afterwards both lengths are 0, arrays and capacities are untouched, the string store is empty, and the bank itself — nothing else — has been put into the pool, once"
+			c.Check(len(probs) == 0, fnKey(cl)+"/reset", P.pos(cl.Pos()), msg, "Close does more (or less) than reset lengths and return the bank: "+strings.Join(probs, "; "))
+			c.Check(len(probs) == 0, fnKey(cl)+"/all-arenas", P.pos(cl.Pos()), msg, strings.Join(probs, "; "))
+			return
+		}
+	}
 	if c.Anchor(cl != nil, "(*ResourceBank).Close") {
 		bad := ""
 		put := false
@@ -1001,6 +1050,40 @@ func ruleALBump(c *Ctx) {
 	}
 }
 
+// closeOnly: fn is the bank's Close, or an unexported function every call of which is made by such a function.
+func closeOnly(P *Program, fn *ssa.Function, d int) bool {
+	if fn == nil || d > 3 {
+		return false
+	}
+	if fn.Name() == "Close" && fn.Signature.Recv() != nil && strings.HasSuffix(typeKey(fn.Signature.Recv().Type()), "avro.ResourceBank") {
+		return true
+	}
+	if token.IsExported(fn.Name()) {
+		return false
+	}
+	n := 0
+	for _, g := range P.ModuleFuncs() {
+		for _, cs := range callsIn(g) {
+			if cs.Static != fn {
+				continue
+			}
+			n++
+			if !closeOnly(P, g, d+1) {
+				return false
+			}
+		}
+		// a method value or a function value taken of it escapes the analysis
+		for _, b := range g.Blocks {
+			for _, in := range b.Instrs {
+				if mc, ok := in.(*ssa.MakeClosure); ok && mc.Fn == ssa.Value(fn) {
+					return false
+				}
+			}
+		}
+	}
+	return n > 0
+}
+
 func isBuiltinCall(call *ssa.Call, name string) bool {
 	bi, ok := call.Call.Value.(*ssa.Builtin)
 	return ok && bi.Name() == name
@@ -1017,6 +1100,14 @@ func ruleALKey(c *Ctx) {
 	P := c.P
 	R := resourceRoles(P)
 	if !c.Anchor(R.ok, "roles of the bank's fields") {
+		return
+	}
+	if af := allocByFold(P); af.ok {
+		rbN := P.NamedType(P.Avro, "ResourceBank")
+		al := P.Method(rbN, "Alloc")
+		msg := af.detail + ": an existing arena is used exactly on the path where its type word was found equal to the one thing every arena is compared with; otherwise a new arena is made, allocated with that very type word"
+		c.Check(af.problems["key"] == "", fnKey(al)+"/search-keyed-by-type", P.pos(al.Pos()), msg, af.problems["key"])
+		c.Check(af.problems["key"] == "", fnKey(al)+"/new-arena-records-type", P.pos(al.Pos()), msg, af.problems["key"])
 		return
 	}
 	// the search: a loop that indexes the arena table, in a method of the bank that is given a reflect.Type
